@@ -212,6 +212,22 @@ def run_more(chk, repo):
                                   witness='two models with the same compartments and flows built in a different order (e.g. '
                                           'peripheral added before the depot, or set_tmdd before '
                                           'set_first_order_absorption): the detector answers differently')
+    T7 = chk.rule('T7', 'setters do not build a new system from an ODE system that was read before the model was re-bound '
+                        'to a changed system', floor=20)
+    nset = 0
+    for f in repo.all_funcs():
+        if not f.module.name.startswith('pharmpy.modeling') or 'model' not in f.all_params:
+            continue
+        if 'CompartmentalSystemBuilder' not in unparse(f.node):
+            continue
+        nset += 1
+        for var, d, r, u in lints.stale_system_after_model_rebind(f.node):
+            chk.violation(T7, f.module.rel, f.qualname, f'{d.text()[:50]} ... {r.text()[:50]} ... {u.text()[:60]}',
+                          f'`{var}` is the system of the model before line {r.line}; a builder created from it at line {u.line} '
+                          f'does not contain what was changed in between', line=u.line,
+                          witness='pheno with SEQ-ZO-FO absorption, then set_instantaneous_absorption: the depot removed by the '
+                                  'first branch is back in the second, update fails with "Symbol POP_MAT is not defined"')
+    chk.instance(T7, f'{nset} modeling functions that build compartmental systems examined', n=nset)
     # T6: generators of the MFL feature modules and everything they are collected by
     n = 0
     for f in repo.all_funcs():
